@@ -215,8 +215,13 @@ Plan generate(Rng &rng, const Opts &opts, uint64_t runIndex)
             if (keep != 0) {
                 p.steps.push_back(mk(0, "RESOLVE")); // the same call again while the fault is still there
             }
-            p.steps.push_back(mk(9, "FS", {F_RESTORE, -1, 0, 0}));
-            long repair = (slot / 3) % 3; // fresh importer, removeAllModels, or the same importer untouched
+            long repair = (slot / 3) % 4; // files restored, then: fresh importer, removeAllModels, or the same importer untouched;
+                                          // or (3) files left as they are and a corrected model handed to the same importer's library
+            if (repair == 3 && f.file > 0) {
+                p.steps.push_back(mk(0, "ADDMODEL", {f.file, slot}));
+            } else {
+                p.steps.push_back(mk(9, "FS", {F_RESTORE, -1, 0, 0}));
+            }
             p.steps.push_back(repair == 0 ? mk(0, "IMPORTER", {strict, keep}) : (repair == 1 ? mk(0, "CLEAR") : mk(0, "NOP")));
             if (keep == 0) {
                 p.steps.push_back(mk(0, "ROOT", {0}));
@@ -292,6 +297,8 @@ Plan generate(Rng &rng, const Opts &opts, uint64_t runIndex)
             } else {
                 p.steps.push_back(mk(9, "FS", {F_RESTORE, file, 0, 0}));
             }
+        } else if (r < 96) {
+            p.steps.push_back(mk(task, "ADDMODEL", {long(rng.below(g.files.size())), long(rng.below(8))}));
         } else {
             p.steps.push_back(mk(task, "QUERY"));
         }
@@ -324,6 +331,8 @@ struct ImporterState
     ImporterPtr importer;
     bool strict = true;
     std::map<std::string, int> refLibrary; // library key -> version id it holds
+    std::map<std::string, long> refSeq; // library key -> when it entered the library (models that were there before may be linked to what it replaces)
+    long seq = 0;
     bool usedSinceClear = false;
 };
 
@@ -389,6 +398,16 @@ struct World
         return cur != nullptr ? cur->spec : pristine.files[file];
     }
 
+    static void stripFlaws(FileSpec &spec)
+    {
+        for (auto &u : spec.units) {
+            u.flaw = 0;
+        }
+        for (auto &k : spec.comps) {
+            k.flaw = 0;
+        }
+    }
+
     void apply(const Fault &fIn, Ctx &ctx)
     {
         Fault f = fIn;
@@ -400,6 +419,7 @@ struct World
         if (f.kind == F_ALL11) {
             for (size_t i = 1; i < n; ++i) {
                 FileSpec spec = specOf(i);
+                stripFlaws(spec); // the 1.1 rendering does not carry them
                 bool noisy = f.a % 3 == 2 || (f.a % 3 == 1 && i % 2 == 0);
                 spec.noise = noisy;
                 FileVersion v = makeVersion(spec);
@@ -462,6 +482,8 @@ struct World
                 tag += "-directory";
                 break;
             case 4:
+                stripFlaws(spec);
+                v = makeVersion(spec);
                 v.load = Load::CELLML11;
                 v.text = render11(spec);
                 tag += "-cellml11";
@@ -476,6 +498,8 @@ struct World
                 break;
             }
             default: {
+                stripFlaws(spec);
+                v = makeVersion(spec);
                 FileSpec noisy = spec;
                 noisy.noise = true;
                 v.load = Load::NOISY11;
@@ -823,6 +847,49 @@ std::string firstUnresolved(const ModelPtr &root)
     return ok ? "closure-fully-linked" : f.found;
 }
 
+// URLs, exactly as written, by which the given specs import the file at `path` - only those that mean this file wherever
+// they are written (the library looks a URL up as written before it resolves it against the importing file's directory)
+bool hrefUnambiguous(const std::vector<FileSpec> &specs, const std::string &href, const std::string &path)
+{
+    for (auto &f : specs) {
+        for (auto &u : f.units) {
+            if (u.imported && u.href == href && normalisePath(f.dir + u.href) != path) {
+                return false;
+            }
+        }
+        for (auto &k : f.comps) {
+            if (k.imported && k.href == href && normalisePath(f.dir + k.href) != path) {
+                return false;
+            }
+        }
+    }
+    return true;
+}
+
+std::vector<std::string> hrefsFor(const std::vector<FileSpec> &specs, const std::string &path, int)
+{
+    std::set<std::string> found;
+    for (auto &f : specs) {
+        for (auto &u : f.units) {
+            if (u.imported && normalisePath(f.dir + u.href) == path) {
+                found.insert(u.href);
+            }
+        }
+        for (auto &k : f.comps) {
+            if (k.imported && normalisePath(f.dir + k.href) == path) {
+                found.insert(k.href);
+            }
+        }
+    }
+    std::vector<std::string> out;
+    for (auto &h : found) {
+        if (hrefUnambiguous(specs, h, path)) {
+            out.push_back(h);
+        }
+    }
+    return out;
+}
+
 void execute(const Plan &plan, Ctx &ctx)
 {
     World w;
@@ -939,6 +1006,7 @@ void execute(const Plan &plan, Ctx &ctx)
             ++epoch;
             imp.importer->removeAllModels();
             imp.refLibrary.clear();
+            imp.refSeq.clear();
             for (auto &cl : clients) {
                 if (cl.imp == c.imp) {
                     cl.haveVerdict = false;
@@ -951,6 +1019,58 @@ void execute(const Plan &plan, Ctx &ctx)
             ctx.ev("CLEAR");
             continue;
         }
+        if (s.op == "ADDMODEL") {
+            // The client repairs (or pre-empts) a file through the importer's library: it parses the pristine content of a
+            // file and stores the model under the URL exactly as an import writes it; such a key is used before any file.
+            size_t n = w.pristine.files.size();
+            size_t file = size_t(((s.arg(0) % long(n)) + long(n)) % long(n));
+            if (file == 0) {
+                continue;
+            }
+            std::vector<FileSpec> specs;
+            if (c.root != nullptr) {
+                specs.push_back(c.rootSpec);
+            }
+            for (size_t g = 0; g < n; ++g) {
+                specs.push_back(w.specOf(g));
+            }
+            std::vector<std::string> hrefs = hrefsFor(specs, w.pristine.files[file].path, int(file));
+            if (hrefs.empty()) {
+                continue;
+            }
+            ctx.begin(stepNo, "ADDMODEL", "");
+            ++epoch;
+            const std::string &href = hrefs[size_t(s.arg(1) < 0 ? -s.arg(1) : s.arg(1)) % hrefs.size()];
+            FileVersion v = w.makeVersion(w.pristine.files[file]);
+            v.tag = "ok";
+            int id = w.vfs.registerVersion(v);
+            auto parser = Parser::create(true);
+            auto model = parser->parseModel(v.text);
+            if (model == nullptr || parser->errorCount() != 0) {
+                ctx.violate("C07", "harness-library-model-has-parse-errors", "", "the pristine content of a generated file does not parse cleanly");
+                return;
+            }
+            bool added = imp.importer->addModel(model, href);
+            bool replaced = !added && imp.importer->replaceModel(model, href);
+            if (!added && !replaced) {
+                ctx.violate("C07", "library-refused-model", "", "neither addModel() nor replaceModel() accepted a parsed model under the key '" + href + "'");
+                return;
+            }
+            if (imp.importer->library(href) != model) {
+                ctx.violate("C07", "library-key-does-not-yield-model", "", "library('" + href + "') does not return the model just stored under that key");
+                return;
+            }
+            imp.refLibrary[href] = id;
+            imp.refSeq[href] = ++imp.seq;
+            for (auto &cl : clients) {
+                if (cl.imp == c.imp) {
+                    cl.haveVerdict = false;
+                }
+            }
+            ctx.count(added ? "library_model_added_under_written_url" : "library_model_replaced_under_written_url");
+            ctx.ev("ADDMODEL file " + str(file) + " as '" + href + "' " + (added ? "added" : "replaced"));
+            continue;
+        }
         if (c.root == nullptr) {
             continue;
         }
@@ -958,6 +1078,8 @@ void execute(const Plan &plan, Ctx &ctx)
             ctx.begin(stepNo, "RESOLVE", "");
             // documented state at call start: the library
             std::map<std::string, int> libAtStart; // normalised path -> version held
+            std::map<std::string, int> libRawAtStart; // key exactly as spelt -> version held
+            std::map<std::string, int> hrefLib; // URL as written -> version held (models the client stored itself)
             bool stale = false, unknownKey = false;
             for (size_t i = 0; i < imp.importer->libraryCount(); ++i) {
                 std::string key = imp.importer->key(i);
@@ -966,8 +1088,34 @@ void execute(const Plan &plan, Ctx &ctx)
                     unknownKey = true;
                     continue;
                 }
+                if (key.empty() || key[0] != '/') {
+                    hrefLib[key] = it->second;
+                    // the key means one file only if every import that writes this URL means that file
+                    std::vector<FileSpec> specs {c.rootSpec};
+                    for (size_t g = 0; g < w.pristine.files.size(); ++g) {
+                        specs.push_back(w.specOf(g));
+                    }
+                    const std::string &overridden = w.vfs.versions[size_t(it->second)].spec.path;
+                    if (!hrefUnambiguous(specs, key, overridden)) {
+                        stale = true;
+                    }
+                    // a model that was in the library before may already be linked to what this key now overrides
+                    for (auto &other : imp.refLibrary) {
+                        if (other.first != key && imp.refSeq[other.first] < imp.refSeq[key]) {
+                            const FileSpec &os = w.vfs.versions[size_t(other.second)].spec;
+                            for (auto &u : os.units) {
+                                stale = stale || (u.imported && normalisePath(os.dir + u.href) == overridden);
+                            }
+                            for (auto &k : os.comps) {
+                                stale = stale || (k.imported && normalisePath(os.dir + k.href) == overridden);
+                            }
+                        }
+                    }
+                    continue;
+                }
                 std::string np = normalisePath(key);
                 libAtStart[np] = it->second;
+                libRawAtStart[key] = it->second;
                 const FileVersion *cur = w.vfs.at(np);
                 if (cur == nullptr || cur->id != it->second) {
                     stale = true;
@@ -1060,15 +1208,16 @@ void execute(const Plan &plan, Ctx &ctx)
                     return;
                 }
                 imp.refLibrary[key] = ver;
+                imp.refSeq[key] = ++imp.seq;
             }
             // reference verdict(s)
             std::vector<std::string> multi;
             for (auto &kv : served) {
-                if (libAtStart.count(kv.first) == 0 && kv.second.size() > 1) {
+                if (kv.second.size() > 1) { // (a file the library holds under the spelling asked for is not opened at all)
                     multi.push_back(kv.first);
                 }
             }
-            std::set<Verdict> expected;
+            std::set<Verdict> expected, expectedLenient; // lenient: units flaws below the client's own model do not count (C07-K1)
             std::string why;
             std::set<std::string> needed;
             size_t combos = 1;
@@ -1090,9 +1239,13 @@ void execute(const Plan &plan, Ctx &ctx)
                 absent.load = Load::ABSENT;
                 absent.tag = "absent";
                 View view = [&](const std::string &np) -> const FileVersion * {
-                    auto li = libAtStart.find(np);
-                    if (li != libAtStart.end()) {
-                        return &w.vfs.versions[size_t(li->second)];
+                    if (np.compare(0, 5, "href:") == 0) {
+                        auto hi = hrefLib.find(np.substr(5));
+                        return hi != hrefLib.end() ? &w.vfs.versions[size_t(hi->second)] : nullptr;
+                    }
+                    if (np.compare(0, 4, "raw:") == 0) {
+                        auto ri = libRawAtStart.find(np.substr(4));
+                        return ri != libRawAtStart.end() ? &w.vfs.versions[size_t(ri->second)] : nullptr;
                     }
                     auto ci = choice.find(np);
                     int id = -3;
@@ -1114,6 +1267,7 @@ void execute(const Plan &plan, Ctx &ctx)
                 };
                 RefResult rr = referenceResolve(c.rootSpec, view, imp.strict);
                 expected.insert(rr.verdict);
+                expectedLenient.insert(referenceResolve(c.rootSpec, view, imp.strict, true).verdict);
                 if (why.empty()) {
                     why = rr.why;
                 }
@@ -1140,6 +1294,12 @@ void execute(const Plan &plan, Ctx &ctx)
                 bool knownShape = structural == "unfetched-units-import-in-library-model";
                 if (undetermined) {
                     ctx.count("resolve_undetermined");
+                } else if (real && expected.count(Verdict::SAT) == 0 && !knownShape && expectedLenient.count(Verdict::SAT) != 0) {
+                    // the only reason is a units with a parser error that a LIBRARY model imports: the listed finding C07-K1
+                    // (not every units import of a library model is visited) in another guise - the run goes on
+                    ctx.violate("C07", "resolve-true-but-unsatisfiable", "flawed-units-import-of-library-model-not-visited", "resolveImports returned true although an import cannot be satisfied: " + why, true);
+                    ctx.count("resolve_true_flawed_units_import_of_library_model_not_visited");
+                    exact = false;
                 } else if (real && expected.count(Verdict::SAT) == 0 && !knownShape) {
                     ctx.violate("C07", "resolve-true-but-unsatisfiable", tags, "resolveImports returned true although an import cannot be satisfied: " + why);
                     return;
